@@ -68,10 +68,16 @@ def new_client(server):
 
 
 def profrs_files(root):
-    d = Path(root) / "fiprofiles"
-    if not d.exists():
-        return {}
-    return {p.name: p.read_bytes() for p in sorted(d.iterdir()) if p.name.endswith(".profrs")}
+    """The on-disk cache: every regular file under the data directory, wherever and however the library names it,
+    except temporary files (names ending in .tmp / starting with tmp), which are not the cache."""
+    out = {}
+    root = Path(root)
+    if not root.exists():
+        return out
+    for p in sorted(root.rglob("*")):
+        if p.is_file() and not p.name.endswith(".tmp") and not p.name.startswith("tmp"):
+            out[str(p.relative_to(root))] = p.read_bytes()
+    return out
 
 
 def request_dtprofup(rec):
